@@ -14,7 +14,7 @@ import z3
 
 from .pseudo import BV, bv, bits, bit, zx, sx, cat
 from .isa import (Enc, any_of, mem_u_read, mem_u_write, mem_a_read, mem_a_write, unaligned_support, aborted,
-                  _data_abort)
+                  _data_abort, translate_check)
 
 FAM = 'ls_hd'
 FAM_AUX = 'ls_hd_aux'  # auxiliary rows (no repository class of that name): run with expect_class = false
@@ -346,16 +346,19 @@ def ldrex_sem(size, imm=None):
         address = S.reg(f['Rn'])
         if imm is not None:
             address = address + imm(S, f)
-        # SetExclusiveMonitors(address, size): the repository's monitors keep no state
+        # SetExclusiveMonitors(address, size): the repository's monitors keep no state; its TranslateAddress() call
+        # comes before the alignment check of the MemA access
         if size == 8:
             t, t2 = regs_of(f)
-            # LDREXD requires a doubleword-aligned address: AlignmentFault(address, FALSE)
+            # LDREXD requires a doubleword-aligned address: AlignmentFault(address, FALSE), checked first
             _data_abort(S, bits(address, 2, 0) != 0, address, False, 0b00001, True)
+            translate_check(S, address, False)
             w1 = mem_a_read(S, address, 4)
             S.set_reg(t, w1, guard=NOT(aborted(S)))
             w2 = mem_a_read(S, address + 4, 4)
             S.set_reg(t2, w2, guard=NOT(aborted(S)))
         else:
+            translate_check(S, address, False)
             data = mem_a_read(S, address, size)
             S.set_reg(f['Rt'], zx(data, 32), guard=NOT(aborted(S)))
     return sem
@@ -369,6 +372,7 @@ def strex_sem(size, imm=None):
         # ExclusiveMonitorsPass(address, size): alignment fault (as a write) for an unaligned address, whatever
         # SCTLR.A/U say; otherwise IsExclusiveLocal() -- constant FALSE in the repository -> not passed
         _data_abort(S, excl_unaligned(S, address, size), address, True, 0b00001, True)
+        translate_check(S, address, True)
         S.set_reg(f['Rd'], BV(1, 32), guard=NOT(aborted(S)))
     return sem
 
